@@ -214,6 +214,7 @@ def worker_main(args: dict) -> int:
         "probes": Counter(),
         "faults": Counter(),
         "samples": [],
+        "full_sample": None,
         "violations": [],
         "known_hits": Counter(),
         "digests": {},
@@ -265,6 +266,18 @@ def worker_main(args: dict) -> int:
                 out["nontrivial"] += 1
                 traces.add(sha(jdump(sim.trace))[:12])
             states.update(sim.state_keys())
+            if sim.nontrivial(prop):
+                size = len(jdump(ops))
+                if out["full_sample"] is None or size < out["full_sample"]["size"]:
+                    if size < 120_000:
+                        out["full_sample"] = {
+                            "size": size,
+                            "run": run_index,
+                            "config": _brief_cfg(cfg),
+                            "ops": ops,
+                            "event_log": sim.log.entries,
+                            "event_log_sha256": sim.log.digest(),
+                        }
             if len(out["samples"]) < 2 and sim.nontrivial(prop):
                 out["samples"].append(
                     {
@@ -571,6 +584,7 @@ def merge(results):
         "sim_seconds": 0.0,
         "checked": 0,
         "template": None,
+        "full_sample": None,
     }
     for res in sorted(results, key=lambda r: r["worker"]):
         total["runs"] += res["runs"]
@@ -587,5 +601,11 @@ def merge(results):
         total["sim_seconds"] += res["sim_seconds"]
         total["checked"] += res["checked"]
         total["template"] = total["template"] or res.get("template")
+        fs = res.get("full_sample")
+        if fs and (
+            total.get("full_sample") is None
+            or fs["size"] < total["full_sample"]["size"]
+        ):
+            total["full_sample"] = fs
     total["samples"] = total["samples"][:3]
     return total
